@@ -63,4 +63,8 @@ def gen_pairs(ctx, impl, n_schemas, docs_per_schema, chaos_levels, broken_share=
             pairs.append((e, doc))
             if rng.random() < schemaless_share:
                 pairs.append((None, doc))
+    # every kind of single mistake in every kind of context (exec_gen.context_matrix), on the first regular schemas
+    for e in [e for e in entries if e[3]][:3]:
+        for d in G.context_matrix(e[0]):
+            pairs.append((e, d))
     return entries, pairs
